@@ -29,3 +29,9 @@ Example reassign_example :
   reassign (ex_prog ++ [Assign sA (Num 0)]) sA (Num 9) =
   [Assign sX (Sym sT); Assign sB (Num 7); Assign sY (Sym sA); Assign sA (Num 9)].
 Proof. split; vm_compute; reflexivity. Qed.
+
+(* substituting the leaf T by U + 1 in ex_prog satisfies the guard of subs_leaf_is_environment_update *)
+Example subs_guard_nonvacuous :
+  g_subs_leaf [(sT, Add (Sym sC) (Num 1))] ex_prog = true /\
+  subs_stmts [(sT, Add (Sym sC) (Num 1))] ex_prog <> ex_prog.
+Proof. split; [vm_compute; reflexivity | vm_compute; discriminate]. Qed.
